@@ -278,7 +278,7 @@ PROPS["C15"]["clauses"]["bisync --dry-run"] = "run_bisync: opts.dry_run ==> the 
 PROPS["C15"]["trusted"] = COMMON_TRUST + PATH_TRUST + WORLD_TRUST
 
 SERVE_TWIN = dict(name="serve_sessions", repo_fn="src/bin/copia/serve.rs", quick=1, thorough=60, needs_cli=True,
-                  contract="16 deterministic sessions against one to three real `copia serve` processes on one root (interleavings forced by withholding content, holding the commit flock, or strace delay injection): refused Puts keep the stream in step, no path escapes, short content + EOF terminates, bad prologue touches nothing, oversize frame rejected, exactly one of two racing CAS Puts commits, committed means live, overlapping Puts never publish mixed bytes, Delete during Put loses nothing, leftover staging is not published, hash mismatch changes nothing, Get announces what it streams, hostile CBOR (huge declared lengths, deep nesting) under a 512 MiB limit neither kills nor hangs the server")
+                  contract="16 deterministic sessions against one to three real `copia serve` processes on one root (interleavings forced by withholding content, holding the commit flock, or strace delay injection): refused Puts keep the stream in step, no path escapes, short content + EOF terminates, bad prologue touches nothing, oversize frame rejected, exactly one of two racing CAS Puts commits, committed means live, overlapping Puts never publish mixed bytes, Delete during Put loses nothing, leftover staging is not published, hash mismatch changes nothing, Get announces what it streams, hostile CBOR (huge declared lengths, deep nesting) under a 512 MiB limit neither kills nor hangs the server; thorough: plus random sequential programs against the compare-and-swap semantics and CONCURRENT random programs (barrier rounds, one server with flock delayed) through a linearizability check")
 SERVE_TRUST = COMMON_TRUST + [
     "Kani 0.68 + CBMC 6.11 for cas_decide (complete, loop-free, arbitrary 32-byte hashes) on the unedited wire.rs",
     "fs2 flock gives mutual exclusion across server processes; the standard argument 'atomic sections under one lock + CAS at lock acquisition ==> linearizable' is stated, not mechanised",
